@@ -87,6 +87,7 @@ type Net struct {
 	// last version of each key a node was seen gossiping (in a request it sent or in the
 	// response it returned), and how often
 	gossiped map[string]int // "<addr>|<key>|<version>" -> times seen
+	received map[string]int // "<addr>|<key>|<version>" -> times the op was handed to addr
 	probe    aspen.Transport
 }
 
@@ -102,6 +103,7 @@ func NewNet(r *prng.R) *Net {
 		Injected:       map[string]int64{},
 		fbDelivered:    map[fbKey]int{},
 		gossiped:       map[string]int{},
+		received:       map[string]int{},
 	}
 	return n
 }
@@ -169,6 +171,14 @@ func (n *Net) Gossiped(a address.Address, key string, version int64) int {
 	n.mu.Lock()
 	defer n.mu.Unlock()
 	return n.gossiped[fmt.Sprintf("%s|%s|%d", a, key, version)]
+}
+
+// Received returns how many times (key, version) was handed to node a in an operation
+// message or in the response to one.
+func (n *Net) Received(a address.Address, key string, version int64) int {
+	n.mu.Lock()
+	defer n.mu.Unlock()
+	return n.received[fmt.Sprintf("%s|%s|%d", a, key, version)]
 }
 
 func (n *Net) Counters() (sent, delivered [nChan]int64, txWithOps int64, injected map[string]int64) {
@@ -242,9 +252,11 @@ func (n *Net) noteDelivered(ch Chan, from, to address.Address, req, res any) {
 		}
 		for _, op := range rq.Operations {
 			n.gossiped[fmt.Sprintf("%s|%s|%d", from, op.Key, int64(op.Version))]++
+			n.received[fmt.Sprintf("%s|%s|%d", to, op.Key, int64(op.Version))]++
 		}
 		for _, op := range rs.Operations {
 			n.gossiped[fmt.Sprintf("%s|%s|%d", to, op.Key, int64(op.Version))]++
+			n.received[fmt.Sprintf("%s|%s|%d", from, op.Key, int64(op.Version))]++
 		}
 	case ChFeedback:
 		m, _ := req.(verifx.FeedbackMessage)
